@@ -55,10 +55,11 @@ Definition stm_full_ok (m : option (sptenmat Z)) (S : sparse Z) (o : option (ten
 Definition zk_spec := ktensor_full_spec 0%Z 1%Z Z.add Z.mul.
 Definition zk_impl := ktensor_full_impl 0%Z Z.add Z.mul.
 Definition zk_at := ktensor_full_at 0%Z Z.add Z.mul.
+(* single behaviour: the transliterated algorithm, the specification and pyttb's result coincide as data lists *)
 Definition kfull_ok (K : ktensor Z) (o : option (dense Z)) : bool :=
-  match o with
-  | Some d => dense_eqb (zk_spec K) d && match zk_impl K with Some d' => dense_eqb d' d | None => true end
-  | None => false
+  match o, zk_impl K with
+  | Some d, Some d' => dense_eqb (zk_spec K) d && dense_eqb d' d
+  | _, _ => false
   end.
 Definition zt_full := ttensor_full 0%Z Z.add Z.mul.
 Definition tfull_ok (T : ttensor Z) (o : option (dense Z)) : bool :=
@@ -71,6 +72,80 @@ Definition zsum_full := sum_full 0%Z 1%Z Z.add Z.mul.
 Definition sumfull_ok (parts : list (part Z)) (s : shape) (o : option (dense Z)) : bool :=
   match o, zsum_full parts with
   | Some d, Some m => den_matches s (den_sum 0%Z Z.add (map zpart_den parts)) d && dense_eqb m d
+  | None, None => true
+  | _, _ => false
+  end.
+
+(* ---------------------------------------------------------------- constructors, stored order (Model/C01Unique.v) *)
+From PV Require Import Model.C01Unique.
+Definition zstm_ctor := stm_ctor Z.add zisz.
+Definition ztm_ctor := @tm_ctor Z.
+Definition zto_sptenmat_sorted := to_sptenmat_sorted_req Z.add zisz.
+
+(* raw comparison: the triples in the order they are stored *)
+Definition stm_raw_eqb (A B : sptenmat Z) : bool :=
+  nmat_eqb (stm_subs A) (stm_subs B) && vec_eqb (stm_vals A) (stm_vals B) && nvec_eqb (stm_r A) (stm_r B) &&
+  nvec_eqb (stm_c A) (stm_c B) && nvec_eqb (stm_tshape A) (stm_tshape B).
+
+(* sptensor.to_sptenmat: the unsorted model against the observation on denotation / well-formedness / nnz (stm_ok) AND the
+   model with the constructor's unique + accumulate step against the observation, triple by triple in stored order *)
+Definition stm_sorted_ok (ms o : option (sptenmat Z)) : bool := opt_eqb stm_raw_eqb ms o && 
+  match o with Some b => ssortedb (stm_subs b) | None => true end.
+
+(* tenmat(data, rdims, cdims, tshape): accept / reject / empty as the guard model predicts; an accepted object converts back
+   (to_tensor) and forth (to_tenmat with its own rindices / cindices) as the model does, with the same data list *)
+Definition tm_ctor_ok (m : ctor_res (tenmat Z)) (o : option (tenmat Z)) (back : option (dense Z)) (again : option (tenmat Z)) : bool :=
+  match m, o with
+  | CtorReject, None => true
+  | CtorEmpty, Some b => tm_eqb (mkTM (mkDense [1; 0] []) [] [] []) b
+  | CtorOk a, Some b =>
+      tm_eqb a b &&
+      match back, again with
+      | Some T, Some a2 =>
+          dense_eqb (tenmat_to_tensor 0%Z a) T &&
+          opt_eqb tm_eqb (to_tenmat 0%Z T (tm_r a) (tm_c a)) (Some a2) &&
+          vec_eqb (ddata (tm_data a2)) (ddata (tm_data a)) && nvec_eqb (dshape (tm_data a2)) (tm_rc a)
+      | _, _ => false
+      end
+  | _, _ => false
+  end.
+
+(* sptenmat(subs, vals, rdims, cdims, tshape): accept / reject as the guard model predicts; stored triples equal to the
+   transliterated unique + accumulate + nonzero; to_sptensor and to_sptenmat again give the model's objects *)
+Definition stm_ctor_ok (m o : option (sptenmat Z)) (back : option (sparse Z)) (again : option (sptenmat Z)) : bool :=
+  match m, o with
+  | None, None => true
+  | Some a, Some b =>
+      stm_raw_eqb a b && ssortedb (stm_subs b) && wf_spb zisz (stm_sp b) &&
+      match back, again with
+      | Some Sp, Some a2 => sp_raw_eqb (sptenmat_to_sptensor a) Sp && stm_raw_eqb a a2
+      | _, _ => false
+      end
+  | _, _ => false
+  end.
+
+(* ---------------------------------------------------------------- scipy views, from_array (Model/C01Coo.v) *)
+From PV Require Import Model.C01Coo.
+Definition zcoo_toarray := coo_toarray 0%Z Z.add.
+Definition coo_raw_eqb (A B : coo Z) : bool :=
+  nvec_eqb (coo_shape A) (coo_shape B) && nmat_eqb (coo_subs A) (coo_subs B) && vec_eqb (coo_data A) (coo_data B).
+(* spmatrix(): the coo triples as stored and the array scipy makes of them *)
+Definition spmatrix_ok (S : sparse Z) (o : option (coo Z)) (arr : dense Z) : bool :=
+  match spmatrix S, o with
+  | Some C, Some C' => coo_raw_eqb C C' && dense_eqb (zcoo_toarray C) arr && dense_eqb (full 0%Z S) arr
+  | None, None => true
+  | _, _ => false
+  end.
+(* sptenmat.double() of the observed sptenmat b *)
+Definition stm_double_ok (b : sptenmat Z) (C' : coo Z) (arr : dense Z) : bool :=
+  coo_raw_eqb (stm_double b) C' && dense_eqb (zcoo_toarray (stm_double b)) arr && dense_eqb (tm_data (sptenmat_full 0%Z b)) arr.
+Definition zfrom_array_dense := from_array_dense 0%Z Z.add zisz.
+Definition zfrom_array_coo := from_array_coo Z.add zisz.
+(* from_array: stored triples as the model's, and the sptenmat denotes the given matrix *)
+Definition from_array_ok (m o : option (sptenmat Z)) (A : dense Z) : bool :=
+  match m, o with
+  | Some a, Some b => stm_raw_eqb a b && 
+      forallb (fun k => (zden_sp (stm_sp b) (ind2sub (dshape A) k) =? nth k (ddata A) 0)%Z) (seq 0 (size (dshape A)))
   | None, None => true
   | _, _ => false
   end.
